@@ -10,6 +10,8 @@ use serde_json::{json, Value};
 
 pub mod e2;
 pub mod vclock;
+pub mod kv;
+pub mod rng;
 
 pub const VERIF_DIR: &str = "/verif";
 
